@@ -189,6 +189,38 @@ func c13Check(c *work.Ctx, t reflect.Type, v reflect.Value, p int, id string, re
 			}
 		}
 	}
+	// UnorderedMap under indentation: the member order is free, so the output is related to itself: it must
+	// be what Indent makes of its own compaction (option combinations are where the four interpreters differ)
+	if plain.err == nil && hasMap(reflect.ValueOf(x), 0) {
+		pi := c13Indents[0]
+		for _, colour := range []bool{false, true} {
+			name := fmt.Sprintf("MarshalIndent(%q,%q)+UnorderedMap", pi[0], pi[1])
+			r := runEnc(func(x interface{}) ([]byte, error) {
+				return json.MarshalIndentWithOption(x, pi[0], pi[1], json.UnorderedMap())
+			}, x)
+			if colour {
+				name += "+Colorize"
+				r = runEnc(func(x interface{}) ([]byte, error) {
+					return json.MarshalIndentWithOption(x, pi[0], pi[1], json.UnorderedMap(), json.Colorize(&json.ColorScheme{}))
+				}, x)
+			}
+			switch {
+			case r.panicked:
+				report(name, "panic:"+util.ErrClass(r.pmsg), "panic: "+r.pmsg)
+			case r.err != nil:
+				report(name, "error-mismatch", fmt.Sprintf("%s err=%v, Marshal err=nil", name, r.err))
+			default:
+				var cmp, want bytes.Buffer
+				if stdjson.Compact(&cmp, r.out) != nil || stdjson.Indent(&want, cmp.Bytes(), pi[0], pi[1]) != nil {
+					report(name, "not-a-document", fmt.Sprintf("%s gives %q", name, clip(r.out)))
+				} else if !bytes.Equal(r.out, want.Bytes()) {
+					report(name, "bytes-differ-from-own-reindentation", fmt.Sprintf("%s gives %q ; Indent(Compact(it)) gives %q", name, clip(r.out), clip(want.Bytes())))
+				} else if cmp.Len() != len(plain.out) {
+					report(name, "document-differs", fmt.Sprintf("%s compacts to %s ; Marshal gives %s", name, clip(cmp.Bytes()), clip(plain.out)))
+				}
+			}
+		}
+	}
 	// MarshalIndent(v,p,i) == Indent(Marshal(v),p,i), with encoding/json.Indent as the neutral formatter
 	for _, pi := range c13Indents {
 		r := runEnc(func(x interface{}) ([]byte, error) { return json.MarshalIndent(x, pi[0], pi[1]) }, x)
